@@ -1,7 +1,7 @@
 //! C10 — packed k-mers behave as length-K strings.
 //! Exhaustive over all 4^K values for K <= 8; seeded proptest with boundary-biased values otherwise.
 
-use debruijn::{Dir, Exts, Kmer, Mer};
+use debruijn::{Dir, Exts, Kmer, MerImmut};
 use proptest::prelude::*;
 use serde::{Deserialize, Serialize};
 use serde_json::{json, Value};
@@ -185,7 +185,12 @@ pub fn chk_set<K: Kmer>(s: &[u8], pos: usize, b: u8) -> Result<(), String> {
     km.set_mut(pos, b);
     let mut w = s.to_vec();
     w[pos] = b;
-    expect("set_mut", km, &w)
+    expect("set_mut", km, &w)?;
+    // non-mutating interface: the original is untouched, the copy is changed
+    let orig = K::from_bytes(s);
+    let copy = orig.set(pos, b);
+    expect("MerImmut::set (copy)", copy, &w)?;
+    expect("MerImmut::set (original)", orig, s)
 }
 
 pub fn chk_set_slice<K: Kmer>(s: &[u8], pos: usize, n: usize, newb: &[u8], garbage: u64) -> Result<(), String> {
@@ -194,7 +199,11 @@ pub fn chk_set_slice<K: Kmer>(s: &[u8], pos: usize, n: usize, newb: &[u8], garba
     km.set_slice_mut(pos, n, pack_top(newb, garbage));
     let mut w = s.to_vec();
     w[pos..pos + n].copy_from_slice(newb);
-    expect("set_slice_mut", km, &w).map_err(|e| format!("{} (pos {} n {} garbage {:#x})", e, pos, n, garbage))
+    expect("set_slice_mut", km, &w).map_err(|e| format!("{} (pos {} n {} garbage {:#x})", e, pos, n, garbage))?;
+    let orig = K::from_bytes(s);
+    let copy = orig.set_slice(pos, n, pack_top(newb, garbage));
+    expect("MerImmut::set_slice (copy)", copy, &w).map_err(|e| format!("{} (pos {} n {})", e, pos, n))?;
+    expect("MerImmut::set_slice (original)", orig, s)
 }
 
 pub fn chk_hamming<K: Kmer>(s: &[u8], t: &[u8]) -> Result<(), String> {
